@@ -1910,6 +1910,10 @@ class _GroupElem(ABC):
             j_f = Normalize(coord[p2_f] - coord[p0_f])
 
             n_f = Normalize(np.cross(i_f, j_f, 1, 1))
+            # orient the face normals away from the element centre, whatever the orientation
+            # of the element (a mirrored mesh has its elements turned inside out)
+            toCenter_f = coord.mean(0) - coord[p0_f]
+            n_f = n_f * -np.sign(np.einsum("fi,fi->f", toCenter_f, n_f))[:, np.newaxis]
 
             coordinates_n_i = coordinates_n[:, np.newaxis].repeat(Nface, 1)
 
